@@ -17,6 +17,9 @@ I32MIN, I32MAX, U32MAX = -2**31, 2**31 - 1, 2**32 - 1
 
 
 S_LE = ("Rational::operator<= (member declaration, givrational.h)", "a <= b ambiguous under ISO overload resolution")
+S_ZD_POW = ("pow(const Rational&, int64_t)", "zero base, negative exponent: 1/0 stored instead of GivMathDivZero")
+S_ZD_INV = ("QField<Rational>::inv", "zero operand: 1/0 stored instead of GivMathDivZero")
+S_ZD_INVIN = ("QField<Rational>::invin", "zero operand: 1/0 stored instead of GivMathDivZero")
 
 
 def merge_frag_findings():
@@ -320,6 +323,23 @@ def rt_in_domain(red, e, m, lim=1024):
     return sh - min(tz, sh) < lim
 
 
+def tok_class(t):
+    try:
+        v = int(t)
+    except ValueError:
+        return "x"
+    if v in (0, 1, -1):
+        return str(v)
+    a = abs(v)
+    return ("-" if v < 0 else "+") + ("s" if a < 2**31 else "w" if a < 2**64 else "m")
+
+
+def klass_of(iargs):
+    """coarse operand class of a case (0, 1, -1, small / word / multi-limb with sign, x = not an integer): recorded with every
+    failing input so that a known-finding key can name the operand class instead of a whole call form"""
+    return "operands " + ",".join(tok_class(t) for t in iargs[:8])
+
+
 def fr(r):
     return Fraction(r[0], r[1])
 
@@ -366,9 +386,10 @@ def build_cases(rng, tier, cov, sweep=True):
     per = 40 if tier == "quick" else 1000
 
     def add(variant, red, iargs, mop, margs, kind, exp, site=None, klass="", nontrivial=True):
-        cases.append({"variant": variant, "red": red, "iargs": [str(x) for x in iargs], "mop": mop,
+        ia = [str(x) for x in iargs]
+        cases.append({"variant": variant, "red": red, "iargs": ia, "mop": mop,
                       "margs": [str(x) for x in margs], "kind": kind,
-                      "exp": exp, "site": site or ("Rational " + variant), "klass": klass, "nt": nontrivial})
+                      "exp": exp, "site": site or ("Rational " + variant), "klass": klass or klass_of(ia), "nt": nontrivial})
 
     # ---- constructors
     for b in (0, 1):
@@ -622,7 +643,7 @@ def build_cases(rng, tier, cov, sweep=True):
         for j in range(rng.range(2, 6)):
             op = rng.choice(seqops)
             if op == "i" and val == 0:
-                op = "n"          # invin(0) is outside the domain (no exception unless __GIVARO_DEBUG)
+                op = "n"          # invin(0): the known finding fix-9, driven by the directed cases, kept out of the random sequences
             y = rng.choice(reps) if rng.chance(2, 3) else gen_rat(rng, 1, {})
             if rng.chance(1, 6):
                 y = (0, 1)
@@ -679,7 +700,7 @@ def build_cases(rng, tier, cov, sweep=True):
             x = canon(n, d)
             if lo == 0 and x[0] < 0:
                 continue
-            add(v, 1, flat(x), "conv_int", flat(x), "raw", str(trunc0(fr(x))))
+            add(v, 1, flat(x), "conv_int", [lo, hi] + flat(x), "raw", str(trunc0(fr(x))))
         x = gen_rat(rng, 1, cov)
         if rng.chance(1, 3):
             x = canon(rng.bits(rng.range(1, 80)) * rng.choice([1, -1]), (rng.bits(rng.range(1, 80)) or 1))
@@ -728,7 +749,8 @@ QW4 = {"axpy": ("q_axpy", lambda a, b, c: a * b + c), "maxpy": ("q_maxpy", lambd
 QWI3 = {"axpyin": ("q_axpyin", lambda r, a, b: r + a * b), "maxpyin": ("q_maxpyin", lambda r, a, b: r - a * b), "axmyin": ("q_axmyin", lambda r, a, b: a * b - r)}
 QWI2 = {"addin": ("addin", lambda r, a: r + a), "subin": ("subin", lambda r, a: r - a), "mulin": ("mulin", lambda r, a: r * a), "divin": ("divin", lambda r, a: r / a)}
 QWU = {"neg": ("q_neg", lambda a: -a), "inv": ("q_inv", lambda a: 1 / a), "assign": ("pos", lambda a: a)}
-QW_ARITY = dict([(k, 3) for k in QW3] + [(k, 4) for k in QW4] + [(k, 3) for k in QWI3] + [(k, 2) for k in QWI2] + [(k, 2) for k in QWU])
+QWI1 = {"negin": ("q_negin", lambda r: -r), "invin": ("q_invin", lambda r: 1 / r)}
+QW_ARITY = dict([(k, 3) for k in QW3] + [(k, 4) for k in QW4] + [(k, 3) for k in QWI3] + [(k, 2) for k in QWI2] + [(k, 2) for k in QWU] + [(k, 1) for k in QWI1])
 
 
 def qw_case(add, op, pat, vals, red):
@@ -742,14 +764,14 @@ def qw_case(add, op, pat, vals, red):
             ins = v[1:]; mop, f = QW4[op]; margs = flat(*ins); exp = f(*[fr(t) for t in ins])
         elif op in QWI3:
             ins = v; mop, f = QWI3[op]; margs = flat(*ins); exp = f(*[fr(t) for t in ins])
+        elif op in QWI1:
+            ins = v; mop, f = QWI1[op]; margs = flat(*ins); exp = f(*[fr(t) for t in ins])
         elif op in QWI2:
             ins = v; mop, f = QWI2[op]; al = 1 if pat[0] == pat[1] else 0
             margs = [al] + (flat(v[0]) if al else flat(*ins)); exp = f(*[fr(t) for t in ins])
         else:
             ins = v[1:]; mop, f = QWU[op]
             if op == "inv":
-                if ins[0][0] == 0:
-                    return                      # inv(0) is outside the domain (no exception unless __GIVARO_DEBUG)
                 margs = [1 if pat[0] == pat[1] else 0] + flat(*ins)
             else:
                 margs = flat(*ins)
@@ -758,7 +780,10 @@ def qw_case(add, op, pat, vals, red):
     except ZeroDivisionError:
         kind, exp = "throw", None
     # model side: the wrapper executed on a store of objects with the same aliasing pattern (Model.exec_*)
-    add(variant, red, flat(*ins), "qw:%s:%s" % (op, pat), flat(*ins), kind, exp, site="QField<Rational>::%s (aliasing pattern r,a,b,c = %s)" % (op, pat))
+    site, klass = "QField<Rational>::%s (aliasing pattern r,a,b,c = %s)" % (op, pat), ""
+    if kind == "throw" and op in ("inv", "invin"):
+        site, klass = S_ZD_INVIN if (op == "invin" or pat == "00") else S_ZD_INV      # inv(r, r) forwards to invin
+    add(variant, red, flat(*ins), "qw:%s:%s" % (op, pat), flat(*ins), kind, exp, site=site, klass=klass)
 
 
 def boundary_cases(add, rng, tier, cov):
@@ -864,7 +889,7 @@ def boundary_cases(add, rng, tier, cov):
         add("trunc", 1, flat(w), "trunc", flat(w), "raw", str(trunc0(fw)))
         add("round", 1, flat(w), "round", flat(w), "raw", str(round_away(fw)))
         if I64MIN <= trunc0(fw) <= I64MAX:
-            add("conv.int64", 1, flat(w), "conv_int", flat(w), "raw", str(trunc0(fw)))
+            add("conv.int64", 1, flat(w), "conv_int", [I64MIN, I64MAX] + flat(w), "raw", str(trunc0(fw)))
     # ---- stored forms that only NoReduce mode produces (0/d, k*n/k*d): the order must still be that of Q
     B = 2**64
     nc = [(0, 4), (0, 1), (0, B), (2, 4), (1, 2), (3, 6), (-2, 4), (-1, 2), (6, 4), (3, 2), (2 * B, 4 * B), (-2 * B, 4 * B), (B * B, 2 * B * B), (B + 1, 2 * B + 2),
@@ -895,8 +920,9 @@ def directed_cases():
     cs = []
 
     def add(variant, red, iargs, mop, margs, kind, exp, sk=None):
-        cs.append({"variant": variant, "red": red, "iargs": [str(x) for x in iargs], "mop": mop, "margs": [str(x) for x in margs],
-                   "kind": kind, "exp": exp, "site": sk[0] if sk else "Rational " + variant, "klass": sk[1] if sk else "", "nt": True})
+        ia = [str(x) for x in iargs]
+        cs.append({"variant": variant, "red": red, "iargs": ia, "mop": mop, "margs": [str(x) for x in margs],
+                   "kind": kind, "exp": exp, "site": sk[0] if sk else "Rational " + variant, "klass": sk[1] if sk else klass_of(ia), "nt": True})
     add("cmpall", 1, [big, 3, 1, 3], "cmpall", [big, 3, 1, 3], "cmp", (1, 1))
     add("cmpall", 1, [1, 3, big, 3], "cmpall", [1, 3, big, 3], "cmp", (-1, -1))
     add("cmpall", 1, [-big, 3, -1, 3], "cmpall", [-big, 3, -1, 3], "cmp", (-1, 1))
@@ -918,6 +944,31 @@ def directed_cases():
     add("ctor.i64pair", 1, [I64MIN, -1], "mk_i64", [I64MIN, -1], "ratc", Fraction(I64MIN, -1))
     add("ctor.i64pair", 1, [I64MIN, 2], "mk_i64", [I64MIN, 2], "ratc", Fraction(I64MIN, 2))
     add("ctor.i64pair", 1, [0, -7], "mk_i64", [0, -7], "ratc", Fraction(0))
+    # zero divisors: every way of dividing by a zero VALUE must be the exception GivMathDivZero, as for operator/ (never a stored x/0)
+    for red in (1, 0):
+        for y in (-1, -2, -7, I64MIN + 1):
+            add("pow.i64", red, [0, 1, y], "pow_i64", [0, 1, y], "throw", None, S_ZD_POW)
+        add("q.inv", red, [0, 1], "q_inv", [0, 0, 1], "throw", None, S_ZD_INV)
+        add("qw.inv.01", red, [0, 1], "qw:inv:01", [0, 1], "throw", None, S_ZD_INV)
+        add("q.inv.alias", red, [0, 1], "q_inv", [1, 0, 1], "throw", None, S_ZD_INVIN)
+        add("qw.inv.00", red, [0, 1], "qw:inv:00", [0, 1], "throw", None, S_ZD_INVIN)
+        add("q.invin", red, [0, 1], "q_invin", [0, 1], "throw", None, S_ZD_INVIN)
+        add("qw.invin.0", red, [0, 1], "qw:invin:0", [0, 1], "throw", None, S_ZD_INVIN)
+        add("seq", red, [3, 4, "s", 3, 4, "i", 0, 1], "seq", [3, 4, "s", 3, 4, "i", 0, 1], "throw", None, S_ZD_INVIN)
+        # the neighbours that already throw
+        add("op/", red, [1, 1, 0, 1], "div", [1, 1, 0, 1], "throw", None)
+        add("op/=", red, [5, 7, 0, 1], "divin", [0, 5, 7, 0, 1], "throw", None)
+        add("qw.div.012", red, [5, 7, 0, 1], "qw:div:012", [5, 7, 0, 1], "throw", None)
+        add("qw.divin.01", red, [5, 7, 0, 1], "qw:divin:01", [5, 7, 0, 1], "throw", None)
+        add("op/.int_r", red, [5, 7, 0], "div", [5, 7, 0, 1], "throw", None)
+        add("op/.int_l", red, [0, 1, 3], "div", [3, 1, 0, 1], "throw", None)
+        add("mod", red, [5, 7, 0], "mod", [5, 7, 0], "throw", None)
+        for v, mop, ia in (("ctor.nd", "mk_nd", [5, 0, 1]), ("ctor.i64pair", "mk_i64", [5, 0]), ("ctor.u64pair", "mk_u64", [5, 0]), ("ctor.i32pair", "mk_i64", [-5, 0]),
+                           ("ctor.u32pair", "mk_u64", [0, 0]), ("q.init.nd", "q_init_nd", [0, 0])):
+            add(v, red, ia[:2], mop, ia, "throw", None)
+        for txt in ("5/0", "0/0", "-7_/_0"):
+            for v in ("ctor.string", "io.read", "q.read"):
+                add(v, red, [txt], "of_text", [int(txt.split("/")[0].strip("_")), 1, 0], "throw", None)
     return cs
 
 
@@ -960,47 +1011,131 @@ def source_tie(chk):
 
 
 # ---------------------------------------------------------------- evaluation
-def run_cases(chk, cases, himpl, drv):
-    impl_in = "".join("%s %d %s\n" % (c["variant"], c["red"], " ".join(c["iargs"])) for c in cases)
-    model_in = "".join("%s %d %s\n" % (c["mop"], c["red"], " ".join(c["margs"])) for c in cases)
-    rc, iout, ierr = vf.run_lines(himpl, impl_in, timeout=3000)
-    if rc == 124:
-        chk.cov.setdefault("inconclusive", []).append("implementation harness timed out on %d cases (machine load); stream not judged" % len(cases))
-        return 0
-    if rc != 0 or len(iout) != len(cases):
-        chk.broke("implementation harness failed (rc=%s, %d/%d lines)" % (rc, len(iout), len(cases)), ierr)
-        return 0
-    mout = None
-    if drv:
-        rc, mout, merr = vf.run_lines(drv, model_in, timeout=3000)
-        if rc == 124:
-            chk.cov.setdefault("inconclusive", []).append("extracted-model driver timed out on %d cases (machine load); correspondence not judged, oracle verdicts kept" % len(cases))
-            mout = None
-        elif rc != 0 or len(mout) != len(cases):
-            chk.broke("model driver failed (rc=%s, %d/%d lines)" % (rc, len(mout), len(cases)), merr)
-            mout = None
-    ncorr = 0
-    for i, c in enumerate(cases):
-        got = iout[i].strip()
-        bad = judge(c, got)
-        desc = {"variant": c["variant"], "red": c["red"], "args": c["iargs"], "model_op": c["mop"], "model_args": c["margs"],
-                "kind": c["kind"], "exp": str(c["exp"])}
-        chk.count((c["variant"], c["red"], tuple(c["iargs"])), nontrivial=c["nt"])
-        if i % 1499 == 0:
-            chk.sample({"variant": c["variant"], "red": c["red"], "args": [a[:60] for a in c["iargs"]], "impl": got[:120], "spec": str(c["exp"])[:120]})
-        for (site, klass, expd, why) in bad:
-            chk.fail_input(site, klass, desc, expd, got, why)
-        if mout is not None:
-            ncorr += 1
-            mg = mout[i].strip()
-            if c["mop"] == "skip":
-                ncorr -= 1            # oracle-only call form (no model): not a validated trace
-            elif mg != got and not bad:      # impl != oracle is already reported as a failing input
-                chk.broke("correspondence model/implementation differs on %s red=%d args=%s: model=%s impl=%s"
-                          % (c["variant"], c["red"], c["iargs"], mg[:300], got[:300]))
+CPU_BUDGET = 10            # CPU seconds one call of the implementation may take (the slowest legitimate case takes milliseconds)
+CPU_BUDGET_RETRY = 90      # budget of the single re-run that decides between "slow" and "does not return"
+MODEL_CPU_TOTAL = 1500     # CPU seconds the extracted-model driver may take for one chunk (RLIMIT_CPU)
+WALL = 3000                # wall-clock limit of one chunk: exceeded = machine load = inconclusive, never a verdict
+CHUNK = 6000
+HANG = "DOES-NOT-RETURN"
+
+
+def _spawn(cmd, text, wall, cpu_total=None):
+    """(rc, stdout lines, stderr, wall_timed_out); communicate(timeout=...) - never a blocking read before the wait"""
+    import subprocess, resource
+
+    def pre():
+        if cpu_total:
+            resource.setrlimit(resource.RLIMIT_CPU, (cpu_total, cpu_total + 10))
+    p = subprocess.Popen(cmd, stdin=subprocess.PIPE, stdout=subprocess.PIPE, stderr=subprocess.PIPE,
+                         universal_newlines=True, errors="replace", preexec_fn=pre)
+    try:
+        out, err = p.communicate(text, timeout=wall)
+        return p.returncode, out.splitlines(), err, False
+    except subprocess.TimeoutExpired:
+        p.kill()
+        out, err = p.communicate()
+        return None, (out or "").splitlines(), err or "", True
+
+
+def run_stream(cmd, lines, notes, what, impl, state):
+    """run one chunk; returns a list with one answer per line, None where no answer was obtained.
+    impl: per-case CPU watchdog inside the harness (marker line HANG, exit 97) -> the case is re-run alone with a larger
+    budget; still no answer -> the answer of that case is HANG (judged as a failing input); the rest of the chunk is resumed.
+    Once one call is confirmed not to return, later watchdog hits are taken as they are (no second budget), and after three
+    the run stops: the verdict is settled and every further hang would cost the full budget.
+    model driver: RLIMIT_CPU on the whole chunk; the case it stops at is skipped and recorded (tooling, not a verdict)."""
+    import signal
+    n = len(lines)
+    res = [None] * n
+    pos = mh = 0
+    while pos < n:
+        if impl and state["hangs"] >= 3:
+            notes.append("%s: three calls did not return; the remaining %d cases of this chunk were not run" % (what, n - pos))
+            break
+        rc, out, err, timed = _spawn(cmd + ([str(CPU_BUDGET)] if impl else []), "".join(lines[pos:]), WALL,
+                                     None if impl else MODEL_CPU_TOTAL)
+        if impl and out and out[-1] == HANG:
+            k = len(out) - 1
+            res[pos:pos + k] = out[:k]
+            hung = pos + k
+            if state["hangs"] == 0:
+                rc2, out2, err2, timed2 = _spawn(cmd + [str(CPU_BUDGET_RETRY)], lines[hung], WALL)
             else:
-                # model == implementation; a model/spec difference is then exactly an impl/spec difference (reported above)
-                pass
+                rc2, out2, err2, timed2 = 97, [HANG], "", False
+            if len(out2) == 1 and out2[0] != HANG and rc2 == 0:
+                res[hung] = out2[0]
+                notes.append("%s: case %r needed more than %d s of CPU (answered within %d s)" % (what, lines[hung][:120], CPU_BUDGET, CPU_BUDGET_RETRY))
+            elif timed2:
+                notes.append("%s: wall-clock time-out while re-running %r alone: not judged" % (what, lines[hung][:120]))
+            else:
+                res[hung] = HANG
+                state["hangs"] += 1
+            pos = hung + 1
+            continue
+        if timed:
+            k = max(len(out) - 1, 0)                       # the last line may be incomplete
+            res[pos:pos + k] = out[:k]
+            notes.append("%s: wall-clock time-out (%d s) after %d of %d cases of a chunk (machine load): the rest is not judged" % (what, WALL, pos + k, n))
+            break
+        if (not impl) and rc is not None and rc < 0 and -rc in (signal.SIGXCPU, signal.SIGKILL):
+            k = len(out)
+            res[pos:pos + k] = out[:k]
+            notes.append("%s: CPU limit (%d s) reached at case %r: skipped, correspondence not judged for it" % (what, MODEL_CPU_TOTAL, lines[pos + k][:120] if pos + k < n else "?"))
+            pos += k + 1
+            mh += 1
+            if mh >= 3:
+                break
+            continue
+        if rc != 0 or len(out) != n - pos:
+            k = min(len(out), n - pos)
+            res[pos:pos + k] = out[:k]
+            notes.append("%s: ended with rc=%s after %d of %d lines: %s" % (what, rc, pos + k, n, (err or "")[-300:]))
+            return res, "rc=%s, %d/%d lines" % (rc, pos + k, n)
+        res[pos:] = out
+        pos = n
+    return res, None
+
+
+def run_cases(chk, cases, himpl, drv, stats):
+    notes = chk.cov.setdefault("inconclusive", [])
+    ncorr = 0
+    for c0 in range(0, len(cases), CHUNK):
+        part = cases[c0:c0 + CHUNK]
+        impl_in = ["%s %d %s\n" % (c["variant"], c["red"], " ".join(c["iargs"])) for c in part]
+        model_in = ["%s %d %s\n" % (c["mop"], c["red"], " ".join(c["margs"])) for c in part]
+        iout, ierr = run_stream([himpl], impl_in, notes, "implementation harness", True, stats)
+        if ierr:
+            chk.broke("implementation harness failed (%s)" % ierr)
+        mout = [None] * len(part)
+        if drv:
+            mout, merr = run_stream([drv], model_in, notes, "extracted-model driver", False, stats)
+            if merr:
+                chk.broke("model driver failed (%s)" % merr)
+        for i, c in enumerate(part):
+            stats["planned"] += 1
+            if c["mop"] != "skip":
+                stats["planned_corr"] += 1
+            if iout[i] is None:
+                continue
+            got = iout[i].strip()
+            stats["judged"] += 1
+            bad = judge(c, got)
+            desc = {"variant": c["variant"], "red": c["red"], "args": c["iargs"], "model_op": c["mop"], "model_args": c["margs"],
+                    "kind": c["kind"], "exp": str(c["exp"])}
+            chk.count((c["variant"], c["red"], tuple(c["iargs"])), nontrivial=c["nt"])
+            if (c0 + i) % 1499 == 0:
+                chk.sample({"variant": c["variant"], "red": c["red"], "args": [a[:60] for a in c["iargs"]], "impl": got[:120], "spec": str(c["exp"])[:120]})
+            for (site, klass, expd, why) in bad:
+                chk.fail_input(site, klass, desc, expd, got, why)
+            if mout[i] is not None and c["mop"] != "skip":
+                ncorr += 1
+                mg = mout[i].strip()
+                if mg != got and not bad:      # impl != oracle is already reported as a failing input
+                    chk.broke("correspondence model/implementation differs on %s red=%d args=%s: model=%s impl=%s"
+                              % (c["variant"], c["red"], c["iargs"], mg[:300], got[:300]))
+        if len(chk.failing) > 200 or stats["hangs"] >= 3:
+            break
+    stats["corr"] += ncorr
     return ncorr
 
 
@@ -1018,10 +1153,14 @@ def judge(c, got):
     k, site, klass = c["kind"], c["site"], c["klass"]
     out = []
     if k == "throw":
-        if got != "THROW":
-            out.append((site, klass, "THROW", "division by zero not reported"))
+        if got == HANG:
+            out.append((site, klass or "does not return", "THROW", "the call does not return within %d s of CPU time (re-run alone)" % CPU_BUDGET_RETRY))
+        elif got != "THROW":
+            out.append((site, klass, "THROW", "division by zero not reported as GivMathDivZero"))
         return out
-    if got == "THROW" or got.startswith("UNKNOWN") or got.startswith("EXN"):
+    if got == HANG:
+        return [(site, klass or "does not return", expected_string(c), "the call does not return within %d s of CPU time (re-run alone)" % CPU_BUDGET_RETRY)]
+    if got.startswith("THROW") or got.startswith("UNKNOWN") or got.startswith("EXN"):
         return [(site, klass, expected_string(c), "unexpected exception / harness answer")]
     if k in ("rat", "ratc"):
         try:
@@ -1091,8 +1230,8 @@ def main(tier, replay=None):
     ]
     chk.assumptions = ["operands of arithmetic in Reduce mode are canonical (den > 0, gcd = 1, 0 = 0/1): the theorems' hypothesis; generated that way (every public constructor is proved to establish it)",
                        "NoReduce mode: operands have a positive denominator (any common factor); results are judged on value and sign of the denominator only",
-                       "division by a zero value is the documented exception (None in the model, THROW in the harness); pow with a negative exponent excludes a zero base; pow exponents are small (the value grows as |x|^y)",
-                       "comparison theorems need den > 0 and zero stored as 0/1 (weaker than canonical)"]
+                       "division by a zero value is the exception GivMathDivZero (None in the model, THROW in the harness) for operator/, /=, QField::div/divin, x % 0, null denominators in constructors and - model after frag/C10.fix-9 - pow(0, negative), QField::inv / invin of zero; pow exponents are small (the value grows as |x|^y)",
+                       "comparison theorems need den > 0 only (C10_six_operators_are_the_order_of_Q_on_any_stored_form); absCompare called directly also needs zero stored as 0/1"]
     # 1. proofs
     res = vf.coq_check_props(AREA)
     chk.proof_result(res, AREA)
@@ -1141,16 +1280,35 @@ def main(tier, replay=None):
                 cases[-1].update(kind="canonlist", exp=None)
     dist = {}
     ncorr = nored = 0
+    stats = {"planned": 0, "planned_corr": 0, "judged": 0, "corr": 0, "hangs": 0}
     rounds = 1 if (replay or tier == "quick") else 8     # thorough: eight batches (memory), the sweep in the first
     for rd in range(rounds):
         if not replay:
             cases = (directed_cases() if rd == 0 else []) + build_cases(rng, tier, cov, sweep=(rd == 0))
-        ncorr += run_cases(chk, cases, himpl, drv)
+        ncorr += run_cases(chk, cases, himpl, drv, stats)
         for c in cases:
             dist[c["variant"]] = dist.get(c["variant"], 0) + 1
         nored += sum(1 for c in cases if c["red"] == 0)
-        if chk.failing or chk.broken:
+        if chk.broken or len(chk.failing) > 40 or stats["hangs"]:
             break
+    # floors: what was actually compared.  Falling below them is a tooling problem (time-outs, load): it is said here, loudly,
+    # and is neither a pass of the unjudged part nor a verdict about /repo.
+    chk.cov["compared"] = {"cases planned": stats["planned"], "implementation answers judged by the oracle": stats["judged"],
+                           "correspondence comparisons planned": stats["planned_corr"], "correspondence comparisons made": stats["corr"],
+                           "theorems re-checked": len(res.get("theorems", [])) if res.get("ok") else 0}
+    floor_missed = []
+    if not (chk.broken or len(chk.failing) > 40 or stats["hangs"]):
+        if stats["judged"] < 0.98 * stats["planned"]:
+            floor_missed.append("only %d of %d implementation answers were judged" % (stats["judged"], stats["planned"]))
+        if drv and stats["corr"] < 0.95 * stats["planned_corr"]:
+            floor_missed.append("only %d of %d correspondence comparisons were made" % (stats["corr"], stats["planned_corr"]))
+        if not replay and tier == "quick" and stats["planned"] < 30000:
+            floor_missed.append("only %d cases were generated (floor 30000)" % stats["planned"])
+    if floor_missed:
+        chk.cov["floor_missed"] = floor_missed
+        vf.log("C10: FLOOR MISSED (inconclusive, tooling): " + "; ".join(floor_missed))
+    if not chk.cov.get("inconclusive"):
+        chk.cov.pop("inconclusive", None)
     if len(chk.broken) > 20:
         chk.broken = chk.broken[:20] + [{"what": "... %d more" % (len(chk.broken) - 20), "detail": ""}]
     chk.cov["rule"] = ("every public call form (variant) of Rational / QField<Rational> x operands from a structured distribution "
